@@ -27,6 +27,8 @@ from . import sym
 from .sym import EngineError, PathEnd, ctx
 
 LOOP_SPECS = {}      # loop id -> LoopSpec
+INDEX_OFFSET = [0]        # see vcloop: offset between the frontier index of a zip(...) header and the invariant's index
+AMBIGUOUS_USED = [False]
 REWRITTEN = {}       # qualname -> dict(loops=[...], fingerprints=[...])
 
 
@@ -77,6 +79,11 @@ class _Rewriter(ast.NodeTransformer):
         if isinstance(node.func, ast.Name) and node.func.id in ("set", "frozenset") and len(node.args) <= 1 and not node.keywords:
             return ast.Call(func=ast.Name(id="vcset_", ctx=ast.Load()), args=node.args, keywords=[])
         return node
+
+    def visit_GeneratorExp(self, node):
+        # a generator over chain elements used as a loop header / argument: same pointwise abstraction as a list
+        # comprehension (element expressions of the code under contract are pure attribute reads)
+        return self.visit_ListComp(node)
 
     def visit_ListComp(self, node):
         self.generic_visit(node)
@@ -195,6 +202,33 @@ def vcloop(loop_id, iterable):
         raise EngineError(f"loop {loop_id} iterates over symbolic-length data but has no invariant")
     env = c.env
     it = iterable.vc_iter()           # object with .first, .in_range(k), .value_at(k), .next(k), .exit
+    # A loop over zip(...) of chain slices hands the body a tuple of elements; which of them carries "the" loop index
+    # the invariant was written for is a guess (INDEX_OFFSET in {0, +1, -1}; explore() tries them in turn -- any
+    # offset for which init, preservation and use are all proved is a valid inductive invariant).
+    off = 0
+    if getattr(iterable, "index_ambiguous", False):
+        AMBIGUOUS_USED[0] = True
+        off = INDEX_OFFSET[0]
+    if off:
+        real_it = it
+
+        class _Shift:
+            first, exit, step, lo, hi = real_it.first + off, real_it.exit + off, real_it.step, real_it.lo + off, real_it.hi + off
+            fresh_index = real_it.fresh_index
+
+            @staticmethod
+            def in_range(k):
+                return real_it.in_range(k - off)
+
+            @staticmethod
+            def next(k):
+                return real_it.next(k - off) + off
+
+            @staticmethod
+            def value_at(k):
+                return real_it.value_at(k - off)
+        it = _Shift
+    env.ghost["loop_iter"] = it       # direction and bounds, for invariants of order-independent (pointwise) loops
     # (1) invariant on entry
     _prove_inv(c, f"{loop_id}:inv-init", spec.invariant(env, it.first, entry=True))
     # (2) havoc the declared frame; anything else written by the body is a frame violation
@@ -253,6 +287,19 @@ class CompResult:
         self.elem_fn = elem_fn
         self.seq = seq
         self.cond_fn = cond_fn
+
+    def vc_iter(self):
+        """used as a loop header: iterate the underlying sequence, mapping each element (unfiltered comprehensions only)"""
+        u = self.seq.vc_iter()
+        elem_fn, cond_fn = self.elem_fn, self.cond_fn
+
+        def value_at(k):
+            x = u.value_at(k)
+            if cond_fn(x) is not True:
+                raise EngineError("loop over a FILTERED comprehension of symbolic length")
+            return elem_fn(x)
+        from .absmodel import _Iter
+        return _Iter(u.first, u.exit, u.step, u.lo, u.hi, value_at)
 
 
 def vccomp(cid, elem_fn, seq, cond_fn):
